@@ -33,6 +33,7 @@ func checkC19(c *Ctx, r *Report) {
 	noCaseChange(c, r, "C19.R4.trim-keeps-case")
 	symmetricTests(c, r, "C19.R2.symmetric-tests", []string{"CompareDomainName", "equal"})
 	dotRemovedBehindIsFqdn(c, r, "C19.R4.dot-removed-behind-isfqdn")
+	trimEmptyOrigin(c, r, "C19.R6.trim-empty-origin")
 }
 
 // c19Scan: R1.
